@@ -344,17 +344,22 @@ def expand_plates(obj, parent=None, idx=None):
                 expand_plates(value, obj, None)
 
 
-def update_parameters(json_object, parameters) -> None:
+def update_parameters(json_object, parameters) -> bool:
     """Recursively replace tensor in json_object with tensors present in
     parameters.
 
     :param dict json_object: json object
     :param parameters: list of Parameters
     :type parameters: list(Parameter)
+    :return: True if json_object holds (or refers to) a replaced parameter
     """
+    updated = False
     if isinstance(json_object, list):
         for element in json_object:
-            update_parameters(element, parameters)
+            updated = update_parameters(element, parameters) or updated
+    elif isinstance(json_object, str):
+        # a reference to a parameter defined elsewhere
+        updated = json_object in parameters
     elif isinstance(json_object, dict):
         if 'type' in json_object and json_object['type'] in (
             'torchtree.core.parameter.Parameter',
@@ -368,9 +373,16 @@ def update_parameters(json_object, parameters) -> None:
                         del json_object[key]
                 # set new tensor
                 json_object['tensor'] = parameters[json_object['id']]['tensor']
+                updated = True
         else:
-            for value in json_object.values():
-                update_parameters(value, parameters)
+            for key, value in json_object.items():
+                if key != 'id':
+                    updated = update_parameters(value, parameters) or updated
+            # a tree model must not replace restored values with starting
+            # values taken from the branch lengths of its newick tree
+            if updated and json_object.get('keep_branch_lengths', False):
+                json_object['keep_branch_lengths'] = False
+    return updated
 
 
 def print_graph(g: torch.Tensor, level: int = 0) -> None:
